@@ -8,7 +8,7 @@
      a[4] = [r]   a[5] = bytes
    Point cases (ops 2 sw_de, 3 te_de, 4 zc_de, 6 sw_check, 7 te_check, 8 sw_revalid, 9 te_revalid):
      a[0] = [curve_id; N; compress; validate; projective]
-     a[1] = [p; deg]   a[2] = [nr]   a[3] = COEFF_A   a[4] = COEFF_B | COEFF_D
+     a[1] = [p; deg]   a[2] = [nr] (deg 2: Fp[u]/(u^2 - nr); deg 3: Fp[u]/(u^3 - nr))   a[3] = COEFF_A   a[4] = COEFF_B | COEFF_D
      a[5] = [r]   a[6] = COFACTOR limbs
      de ops:      a[7] = bytes
      check ops:   a[7] = [batch]   a[8..] = points: affine x ++ y ++ [infinity] (TE: x ++ y),
@@ -122,5 +122,7 @@ Definition run_C10 (op : Z) (a : list (list Z)) : list (list Z) :=
     | 1 => run_point10 (ZpOps p) (tower_fp N p) (fun x => x) (fun x => x) Z.compare op a
     | 2 => run_point10 (QuadOps (ZpOps p) (argz 2 0 a mod p)) (tower_quad (tower_fp N p))
                        (fun x => x) (fun x => x) (quad_cmp Z.compare) op a
+    | 3 => run_point10 (CubicOps (ZpOps p) (argz 2 0 a mod p)) (tower_cubic (tower_fp N p))
+                       (fun x => x) (fun x => x) (cubic_cmp Z.compare) op a
     | _ => unsupported
     end.
